@@ -298,8 +298,8 @@ pub fn run_c18(cx: &Cx) -> PropResult {
         slots.into_inner().unwrap().into_iter().map(|x| x.unwrap()).collect()
     };
     let failing: Vec<bool> = solo.iter().map(|s| s.contains("err") || s.starts_with("PANIC")).collect();
-    let per_shard = cx.n(40, 1_500);
-    let n_stress = cx.n(20, 500) as usize;
+    let per_shard = cx.n(120, 3_000);
+    let n_stress = cx.n(48, 800) as usize;
     let solo = Arc::new(solo);
     let acc = parallel(cx, &|shard, acc| {
         // ---- histories
